@@ -92,4 +92,23 @@ PROPS = {
         'correspondence': 'scan sequence (storage index, kind, text, list id) of the implementation vs storage_scan of the model; the harness flags any difference between String and File scans, any retrieval that does not return the scanned rule, and index collisions; the model side re-checks its own retrieval on every index',
         'assumptions': ['int32 list ids, offsets < 2^31 (the property domain)', 'network-rule lines with bytes >= 0x80 make the model decline the case'],
     },
+    'C01': {
+        'harness': 'c01',
+        'rule': 'storages of 1-3 String lists (ids incl. 0, negative and extreme int32) with 0-60 rules each: rules whose shortcut contains one of 24 pairs of djb2-colliding 5-byte windows (birthday search), shortcuts of length exactly 5 / below 5 / at the any-URL thresholds, $domain rules (incl. wildcard TLD and negated), rules without shortcut and domain (sequential table), families of rules sharing shortcut windows (histogram), exceptions, focused and grammar rules; 40 (120) requests per engine coupled to the rules, with colliding windows and windows at the very end of the URL; the harness also compares MatchAll with a linear scan over every network rule of the storage (the property own oracle); non-trivial = some request of the case matched a rule',
+        'correspondence': 'per request, the sorted set of rule texts of NetworkEngine.MatchAll vs match_all of the model engine built by the model from the same storage with its own djb2 (also compared directly on sample strings)',
+        'assumptions': ['ASCII rule lists; a request is skipped by the model if some rule match is outside the modelled fragment (Go-side linear-scan oracle still applies)'],
+    },
+    'C02': {
+        'harness': 'c02',
+        'rule': 'storages of 1-3 lists with 0-40 lines mixing hosts lines (IPv4/IPv6/mapped, 1-8 names), bare domains, 12 pairs of djb2-colliding host names (birthday search) in hosts lines and in ||name^ rules, adblock rules with browser-only modifiers (content types, $domain, third-party, match-case, popup: ignored by the DNS engine), host-level rules with important / badfilter / dnstype / client / ctag / dnsrewrite / denyallow, exceptions, and lookup-table rules of C01; 40 (120) DNS requests per engine (listed, colliding, sub-, near-miss and empty host names; client name, IP, tag, record type); the harness also computes the reference resolution by scanning every rule; non-trivial = some request of the case was matched',
+        'correspondence': 'per request: sorted texts of NetworkRules, class of NetworkRule (none/block/allow, important), sorted texts of HostRulesV4 and HostRulesV6, matched; implementation vs dns_match of the model engine built from the same storage',
+        'assumptions': ['ASCII; sorted request tags; lower-case hostnames'],
+    },
+    'C15': {
+        'harness': 'c15',
+        'rule': 'storages of 1-3 lists with 0-14 lines each: generic rules, rules with 1-3 domains (negated, wildcard TLD, single label), exceptions with the same selectors, negated-only rules, duplicate selectors, unsupported cosmetic syntax and non-cosmetic lines; 15 hostnames (listed domain, subdomain, sub-subdomain, sibling, unrelated, wildcard instantiations, no-label-boundary near misses) x all 8 flag combinations, through CosmeticEngine.Match and Engine.GetCosmeticResult; the harness also computes the reference with CosmeticRule.Match over all rules; non-trivial = some result of the case is non-empty',
+        'correspondence': 'per hostname and flag set: sorted generic and specific selector sets, implementation vs cos_engine_match of the model',
+        'exhaustive_part': 'the 8 combinations of the three option flags',
+        'assumptions': [],
+    },
 }
